@@ -38,6 +38,7 @@ class State:
         self.default_cache = {} # evaluated default arguments (shared objects, as in CPython)
         self.trace = []         # file-write / print events
         self.fresh = 0          # per-path fresh-name counter (deterministic re-execution after forks)
+        self.array_facts = []   # (function symbol name, fn(args)->z3 Bool): facts about input arrays, instantiated per application
 
     def fork(self):
         s = State.__new__(State)
@@ -52,6 +53,7 @@ class State:
         s.default_cache = self.default_cache
         s.trace = list(self.trace)
         s.fresh = self.fresh
+        s.array_facts = self.array_facts
         return s
 
     # heap
